@@ -43,7 +43,7 @@ STUB = ["choice of the running worker thread (baton scheduler, line events in mo
 ASSUMPTIONS = ["the eval'd equation lambdas and numpy/pandas run atomically between two pre-emption points",
                "double evaluation of an equation is allowed; a second VALUE for one (element, time) is not"]
 FAULT_KINDS = ["preemption"]
-PROBES = ["plot_with_a_step_of_its_own", "agent_callback_reads_elements_during_a_reset", "element_of_an_arrayed_constant_edited", "edits_on_a_registered_scenario_model", "first_equation_after_dependants_were_read", "failed_modelling_call", "scenario_constant_then_scenario_reset", "long_stochastic_run", "edit_landed_inside_a_run", "stochastic_scenario_run_repeatedly", "read_via_memoize", "read_via_call", "read_via_plot", "decimal_dt_race", "edit_after_dependant_read", "initial_value_edit", "preempted_between_check_and_store", "fresh_called_twice_for_one_time",
+PROBES = ["stochastic_expression_as_scenario_constant", "time_step_refined_through_the_scenario", "plot_with_a_step_of_its_own", "agent_callback_reads_elements_during_a_reset", "element_of_an_arrayed_constant_edited", "edits_on_a_registered_scenario_model", "first_equation_after_dependants_were_read", "failed_modelling_call", "scenario_constant_then_scenario_reset", "long_stochastic_run", "edit_landed_inside_a_run", "stochastic_scenario_run_repeatedly", "read_via_memoize", "read_via_call", "read_via_plot", "decimal_dt_race", "edit_after_dependant_read", "initial_value_edit", "preempted_between_check_and_store", "fresh_called_twice_for_one_time",
           "run_repeated", "scenario_reset_cache"]
 EXHAUSTIVE = {"quick": False, "thorough": False}
 
@@ -172,7 +172,10 @@ def generate(spec):
     if spec["kind"] == "repeat":
         # a stochastic model behind bptk scenarios (with and without scenario settings): several runs, no edit in between
         runs = [rng.sample(["s", "r", "a"], rng.randint(1, 3)) for _ in range(rng.randint(2, 4))]
-        return {"property": PROPERTY, "kind": "repeat", "scenario": rng.choice(["plain", "boost", "boost"]),
+        scen_ = rng.choice(["plain", "boost", "boost", "noisy"])
+        if scen_ == "noisy":
+            runs = [rng.sample(["s", "r", "a", "k"], rng.randint(2, 4)) for _ in range(rng.randint(2, 4))]
+        return {"property": PROPERTY, "kind": "repeat", "scenario": scen_,
                 # one in fifteen is a long run (more values than any "reasonable" bound on a memo): nothing is ever forgotten
                 "dt": rng.choice([1.0, 0.5]), "steps": rng.choice([2, 3, 4]) if rng.random() > 1 / 15 else rng.choice([530, 700]), "runs": runs,
                 "formats": [rng.choice(["df", "dict", "json"]) for _ in runs]}
@@ -224,6 +227,9 @@ def generate(spec):
             ops.append({"op": "scenario_constant", "elem": rng.choice(["k1", "k2"]), "value": rng.choice([0.0, 0.5, 1.0, 3.0, -2.0])})
         else:
             ops.append({"op": "scenario_reset_cache"})
+    if rng.random() < 0.15:
+        # the scenario's time step is refined (or coarsened) somewhere in the history
+        ops.insert(rng.randint(1, len(ops)), {"op": "change_dt", "dt": rng.choice([x for x in (1.0, 0.5, 0.25) if x != dt])})
     late = rng.choice([None, None, "c2", "b1"])        # an element that gets its FIRST equation only during the history
     if late and not any(o["op"] == "set_equation" and o["elem"] == late for o in ops):
         ops.insert(rng.randint(1, len(ops)), {"op": "set_equation", "elem": late, "idx": rng.randrange(NTPL[late])})
@@ -235,7 +241,7 @@ def generate(spec):
         # the model is registered with bptk, the edits are made on the registered scenario's own model and "run" is
         # bptk.run_scenarios (no scenario settings in play: the scenario's constants stay empty)
         # (the handle of an arrayed element of a scenario's clone is not arrayed: element-wise edits stay with the plain histories)
-        ops = [o for o in ops if o["op"] not in ("scenario_constant", "set_vector_element")]
+        ops = [o for o in ops if o["op"] not in ("scenario_constant", "set_vector_element", "change_dt")]
     return {"property": PROPERTY, "kind": "edit", "start": start, "stop": stop, "dt": dt, "ops": ops, "late": late, "bptk": through_bptk,
             # a hybrid model: an agent whose documented reset_cache() callback reads SD elements (a "soft reset" that re-reads its budget)
             "observer": (not through_bptk) and rng.random() < 0.25,
@@ -253,6 +259,15 @@ def execute(case):
     if case["kind"] == "repeat":
         return _execute_repeat(case)
     return _execute_edit(case)
+
+
+_draws = [0]
+
+
+def draw():
+    """a fresh unique value per call (what a stochastic expression string such as "np.random.uniform(1, 10)" does, deterministically)"""
+    _draws[0] += 1
+    return 100.0 + _draws[0]
 
 
 def _execute_repeat(case):
@@ -283,11 +298,16 @@ def _execute_repeat(case):
     a.equation = r * k
     s.initial_value = 0.0
     s.equation = a * 1.0
-    kval = {"plain": 1.0, "boost": 2.0}[case["scenario"]]
+    kval = {"plain": 1.0, "boost": 2.0, "noisy": None}[case["scenario"]]
+    _draws[0] = 0
     with patches.installed(threads="serial"):
         b = BPTK_Py.bptk()
         b.register_scenario_manager({"smR": {"model": m}})
-        b.register_scenarios(scenario_manager="smR", scenarios={"plain": {}, "boost": {"constants": {"k": 2.0}}})
+        b.register_scenarios(scenario_manager="smR", scenarios={"plain": {}, "boost": {"constants": {"k": 2.0}},
+                                                                 # a scenario constant given as a STOCHASTIC expression string: drawn once per time, like any other value
+                                                                 "noisy": {"constants": {"k": "__import__('checks.c08', fromlist=['draw']).draw()"}}})
+        if case["scenario"] == "noisy":
+            res.probe("stochastic_expression_as_scenario_constant")
         seen = {}       # element -> {t: value} as first reported
         for n, (eqs, fmt) in enumerate(zip(case["runs"], case["formats"])):
             out = b.run_scenarios(scenarios=[case["scenario"]], scenario_managers=["smR"], equations=list(eqs), series_names={}, return_format=fmt)
@@ -311,7 +331,7 @@ def _execute_repeat(case):
             if res.violations:
                 break
         # the value reported for r / a is the value the stock consumed, whichever run reported it
-        if not res.violations:
+        if not res.violations and kval is not None:
             grid = [round(i * dt, 6) for i in range(steps + 1)]
             if "a" in seen and "r" in seen:
                 for t in grid:
@@ -423,13 +443,14 @@ def _execute_edit(case):
     res = RunResult()
     start, stop, dt = case["start"], case["stop"], case["dt"]
     grid = _grid(start, stop, dt)
+    rs = {"dt": dt, "grid": grid}       # (the run spec in force: a scenario may refine its dt during the history)
     defs = dict(DEFS0)
     if case.get("late"):
         defs[case["late"]] = None
         res.probe("first_equation_after_dependants_were_read")
     live = build(defs, start, stop, dt)
     b = None
-    if case.get("bptk") and not any(o["op"] in ("scenario_constant", "set_vector_element") for o in case["ops"]):
+    if case.get("bptk") and not any(o["op"] in ("scenario_constant", "set_vector_element", "change_dt") for o in case["ops"]):
         import BPTK_Py
         from worlds.server_world import configure_bptk_globals
         configure_bptk_globals()
@@ -451,7 +472,7 @@ def _execute_edit(case):
 
             def reset_cache(self):
                 for n_ in ("c2", "s1", "c3", "c4", "s2"):
-                    for t_ in grid[:3]:
+                    for t_ in rs["grid"][:3]:
                         try:
                             self.model.evaluate_equation(n_, t_)
                         except Exception:
@@ -492,9 +513,9 @@ def _execute_edit(case):
         return m.evaluate_equation(n, t)
 
     def compare(n_op, op):
-        fresh = build(defs, start, stop, dt)
+        fresh = build(defs, start, stop, rs["dt"])
         for n in ELEMS:
-            for t in grid:
+            for t in rs["grid"]:
                 try:
                     lv = read(live, n, t)
                 except Exception as e:
@@ -586,7 +607,7 @@ def _execute_edit(case):
             live.constants[op["elem"]].equation = float(op["value"])
             last_edit[0] = op
         elif kind == "evaluate":
-            t = grid[op["t_index"] % len(grid)]
+            t = rs["grid"][op["t_index"] % len(rs["grid"])]
             if via == "plot" and op.get("plot_dt"):
                 res.probe("plot_with_a_step_of_its_own")
                 elem(live, op["elem"]).plot(dt=op["plot_dt"], return_df=True)
@@ -601,7 +622,7 @@ def _execute_edit(case):
             res.probe("run_repeated")
             if f1 != f2:
                 res.violate("C08.a-run-not-repeatable", {"op_index": n_op, "equations": op["equations"]})
-            fresh = build(defs, start, stop, dt)
+            fresh = build(defs, start, stop, rs["dt"])
             f3 = run(fresh, op["equations"])
             if f1 != f3:
                 bad = [c for c in f1 if f1.get(c) != f3.get(c)]
@@ -623,6 +644,15 @@ def _execute_edit(case):
             scen.constants[op["elem"]] = op["value"]
             scen.reset_cache()
             SdSimulation(model=live, name="edit").change_equation(name=op["elem"], value=op["value"])
+            last_edit[0] = op
+        elif kind == "change_dt":
+            # what bptk does when a scenario's run specs are refined (REST / session settings): the runner writes them into the
+            # model (SdSimulation.change_runspecs) and the SCENARIO's cache is reset - no edit through the modelling API
+            res.probe("time_step_refined_through_the_scenario")
+            SdSimulation(model=live, name="edit").change_runspecs(starttime=start, stoptime=stop, dt=op["dt"])
+            scen.reset_cache()
+            rs["dt"] = op["dt"]
+            rs["grid"] = _grid(start, stop, op["dt"])
             last_edit[0] = op
         elif kind == "reset_cache":
             live.reset_cache()
